@@ -7,6 +7,7 @@ import (
 	"encoding/json"
 	"fmt"
 	"sort"
+	"strings"
 	"sync"
 	"testing"
 	"time"
@@ -277,7 +278,86 @@ func runC07(t *testing.T, spec RunSpec) *RunResult {
 			}
 			return out
 		}
-		w.Propose = func() []netsim.Proposal { return append(st.proposals(), advProposals()...) }
+		// impersonation: a Byzantine member b picks a victim v and a list L of the expected size that contains v and
+		// b, and plays every other member of L towards v, over its own link: announcements and confirmations of the
+		// view L under the tags of those members (any member can compute every member's tag of a topic). Two victims
+		// get independent lists.
+		type impMsg struct {
+			key  string
+			fire func()
+		}
+		var imps []impMsg
+		impFired := map[string]bool{}
+		if x0 := advR("c07-imp"); len(cfg.Byz) > 0 && x0%3 == 0 {
+			for vi := 0; vi < 2; vi++ {
+				x := advR("c07-imp-victim", fmt.Sprint(vi))
+				b := cfg.Byz[int(x%uint64(len(cfg.Byz)))]
+				ti := int((x >> 8) % uint64(len(cfg.Topics)))
+				tp := cfg.Topics[ti]
+				if len(tp.Invokers) == 0 || tp.Expected > len(cfg.Universe) || tp.Expected < 2 {
+					continue
+				}
+				v := tp.Invokers[(int((x>>16)%uint64(len(tp.Invokers)))+vi)%len(tp.Invokers)]
+				in := map[uint16]bool{v: true, b: true}
+				L := []uint16{v, b}
+				rr := prng.Derive(spec.Seed, fmt.Sprintf("c07-imp-list/%d", vi))
+				for _, i := range rr.Perm(len(cfg.Universe)) {
+					if len(L) >= tp.Expected {
+						break
+					}
+					if u := cfg.Universe[i]; !in[u] {
+						in[u] = true
+						L = append(L, u)
+					}
+				}
+				sort.Slice(L, func(i, j int) bool { return L[i] < L[j] })
+				for _, xid := range L {
+					if xid == v {
+						continue
+					}
+					for _, typ := range []byte{1, 3} { // announcement, confirmation
+						xid, typ, b, v, ti := xid, typ, b, v, ti
+						data := c07Encode(typ, c07Tag([]byte(tp.Name), xid), L)
+						k := fmt.Sprintf("inj:imp:%d>%d:t%d:as%d:type%d", b, v, ti, xid, typ)
+						imps = append(imps, impMsg{key: k, fire: func() {
+							tk := "foreign"
+							if xid == b {
+								tk = "own"
+							}
+							w.Faults["byz-sync-impersonate-"+tk]++
+							w.Inject(b, v, uint8(tss.MsgTypeSync), nil, data, "byz-sync")
+						}})
+					}
+				}
+			}
+		}
+		impProposals := func() []netsim.Proposal {
+			var out []netsim.Proposal
+			for _, im := range imps {
+				if impFired[im.key] {
+					continue
+				}
+				// offered once the victim has invoked the synchronisation (earlier messages are dropped unseen)
+				var vv uint16
+				var tt int
+				fmt.Sscanf(im.key[strings.Index(im.key, ">")+1:], "%d:t%d", &vv, &tt)
+				if calls[key{tt, vv}] == nil {
+					continue
+				}
+				im := im
+				out = append(out, netsim.Proposal{Key: im.key, Weight: 2, Fire: func() {
+					impFired[im.key] = true
+					im.fire()
+				}})
+				if len(out) >= 6 {
+					break
+				}
+			}
+			return out
+		}
+		w.Propose = func() []netsim.Proposal {
+			return append(append(st.proposals(), advProposals()...), impProposals()...)
+		}
 		lim := netsim.RunLimits{MaxSteps: 80000, Horizon: deadline + 20*time.Second, FairAfterSteps: 5000, FairAfter: deadline / 2}
 		v := w.Run(sched, lim, func() bool { return st.allDone(w) && quiet(w) })
 		if v != nil {
